@@ -145,7 +145,7 @@ for _c in (multi_prefix, multi_suffix):
 
 def extra_checks(res, tier, seed, known, log):
     from pyvc import runner
-    runner.runtime_standin(res, "C08", "c08", "environments", seed, 1500 if tier == "quick" else 20000, 40 if tier == "quick" else 600,
+    runner.runtime_standin(res, "C08", "c08", "environments", seed, 1500 if tier == "quick" else 20000, 15 if tier == "quick" else 600,
                            label="hamming_sphere / edit_environment enumerate exactly the neighbourhood with exact error counts")
-    runner.runtime_standin(res, "C08", "c08", "index", seed, 3000 if tier == "quick" else 60000, 50 if tier == "quick" else 900,
+    runner.runtime_standin(res, "C08", "c08", "index", seed, 3000 if tier == "quick" else 60000, 25 if tier == "quick" else 900,
                            label="indexed vs one-by-one search and genuineness of indexed matches")
